@@ -490,7 +490,9 @@ _SHAPES = ['A OP', 'A OP OP B', 'A OP OTHER B', 'OP A', 'OP', '( A', 'A )', '( )
            '( A || B NL &&', '( ( A || B NL && )', '( A || B NL && NL', '( A && B NL ||', '( A && B NL || )',
            '( A || B NL ||', '( A && B NL &&',
            # `#` = the operator with one character too few, `##` = one too many - at the first and at later positions
-           'A # B', 'A OP B # A', 'A OP B # A OP B', '( A OP B NL # A )', 'A OP ( B # A )', 'A ## B', 'A OP B ## A']
+           'A # B', 'A OP B # A', 'A OP B # A OP B', '( A OP B NL # A )', 'A OP ( B # A )', 'A ## B', 'A OP B ## A',
+           # a quoted token is a string, never a parenthesis or an operator
+           "'(' A )", '"(" A OP B )', "( A ')'", "A 'OP' B", "( '(' A ) )", "A OP '(' B )"]
 _FIXED_CTX = {'im': ['def', 'exit-code', 'num-lines'], 'lm': ['def', 'every-line', 'filter'],
               'tm': ['def', 'stdout', 'contents', 'fm-contents'], 'fm': ['def', 'exists', 'every-file'],
               'fsm': ['def', 'dir-contents', 'fm-dir-contents'], 'tr': ['def', 'file', 'tm-transformed']}
